@@ -57,15 +57,10 @@ theorem forSlice_field_deny (s : Gen.deny.Store) (ks : List String) :
 
 theorem prune_tie (w : Go.World) (hw : w.OrdOk) (r : Reg) (ha : KV.NoDupKeys r.allow) (hd : KV.NoDupKeys r.deny) :
     Gen.deny.Store.Prune w (toGen r) = toGen (step r .prune) := by
-  simp only [Gen.deny.Store.Prune, Gen.deny.Store.prune, toGen, step]
-  rw [forSlice_field_allow]
-  simp only
-  rw [forSlice_field_deny]
-  simp only
-  have h1 := sweep_tie w hw r.allow ha r.now
-  have h2 := sweep_tie w hw r.deny hd r.now
-  simp only [Gen.deny.Store.mk.injEq]
-  exact ⟨h1, h2, trivial⟩
+  -- written so that it does not depend on the order in which the source sweeps the two lists
+  simp only [Gen.deny.Store.Prune, Gen.deny.Store.prune, toGen, step, forSlice_field_allow, forSlice_field_deny,
+    Gen.deny.Store.mk.injEq]
+  exact ⟨sweep_tie w hw r.allow ha r.now, sweep_tie w hw r.deny hd r.now, trivial⟩
 
 theorem getDenyList_tie (w : Go.World) (hw : w.OrdOk) (r : Reg) :
     (Gen.deny.Store.GetDenyList w (toGen r)).Perm (KV.keys r.deny) := by
